@@ -36,7 +36,8 @@ use std::{
     panic::AssertUnwindSafe,
     sync::{Arc, Mutex},
 };
-use tokio::sync::{broadcast, mpsc};
+use barter_execution::exchange::mock::request::MockExchangeRequest;
+use tokio::sync::{broadcast, mpsc, oneshot};
 use vh_common::*;
 
 // ---------------------------------------------------------------------------------------------
@@ -113,6 +114,33 @@ enum RKind {
 struct RReq {
     t: i64,
     kind: RKind,
+    beh: Beh,
+}
+
+/// what the client does with the response of this request
+#[derive(Clone, Copy, Debug, PartialEq)]
+enum Beh {
+    Await,
+    /// raw request on the exchange's request channel, response receiver dropped at once
+    Drop,
+    /// client call abandoned after this many ms of virtual time (awaited if >= latency)
+    GiveUp(u64),
+}
+impl Beh {
+    fn awaited(self, latency: u64) -> bool {
+        match self {
+            Beh::Await => true,
+            Beh::Drop => false,
+            Beh::GiveUp(ms) => ms >= latency,
+        }
+    }
+    fn coq(self) -> String {
+        match self {
+            Beh::Await => "BAwait".into(),
+            Beh::Drop => "BDrop".into(),
+            Beh::GiveUp(ms) => format!("(BGiveUp {})", n(ms as u128)),
+        }
+    }
 }
 
 fn req_json(r: &Req) -> Value {
@@ -202,6 +230,18 @@ fn dop_from(v: &Value) -> DOp {
     }
 }
 fn rreq_json(r: &RReq) -> Value {
+    let mut v = rreq_json_kind(r);
+    match r.beh {
+        Beh::Await => {}
+        Beh::Drop => v["beh"] = json!("drop"),
+        Beh::GiveUp(ms) => {
+            v["beh"] = json!("giveup");
+            v["ms"] = json!(ms);
+        }
+    }
+    v
+}
+fn rreq_json_kind(r: &RReq) -> Value {
     match &r.kind {
         RKind::Snapshot => json!({"t": r.t, "k": "snapshot"}),
         RKind::Balances => json!({"t": r.t, "k": "balances"}),
@@ -220,7 +260,12 @@ fn rreq_from(v: &Value) -> RReq {
         "cancel" => RKind::Cancel,
         _ => RKind::Open(req_from(&v["req"])),
     };
-    RReq { t: v["t"].as_i64().unwrap(), kind }
+    let beh = match v["beh"].as_str() {
+        Some("drop") => Beh::Drop,
+        Some("giveup") => Beh::GiveUp(v["ms"].as_u64().unwrap_or(0)),
+        _ => Beh::Await,
+    };
+    RReq { t: v["t"].as_i64().unwrap(), kind, beh }
 }
 
 // ---------------------------------------------------------------------------------------------
@@ -438,7 +483,7 @@ fn coq_rreq(r: &RReq) -> String {
         RKind::Cancel => "KCancel".to_string(),
         RKind::Open(q) => format!("(KOpen {})", coq_req(q)),
     };
-    format!("(mkRq {} {})", zz(r.t), k)
+    pair(&format!("(mkRq {} {})", zz(r.t), k), &r.beh.coq())
 }
 
 // ---- observed values -> Coq ----------------------------------------------------------------
@@ -742,6 +787,9 @@ enum Resp {
     Orders(Option<Vec<Order<ExchangeId, InstrumentNameExchange, Open>>>),
     Trades(Option<Vec<Trade<QuoteAsset, InstrumentNameExchange>>>),
     Cancel(bool), // true = the expected ExchangeOffline error
+    NotAwaited,
+    /// the call returned although the client meant to give up first
+    Early(Box<Resp>),
 }
 
 fn run_run(s: &Setup, batches: &[Vec<RReq>]) -> Ran {
@@ -793,7 +841,7 @@ fn run_run(s: &Setup, batches: &[Vec<RReq>]) -> Ran {
                 .collect();
             let futs = batch.iter().zip(instr_names.iter()).map(|(rq, name)| {
                 let client = &client;
-                async move {
+                let call = async move {
                     match &rq.kind {
                         RKind::Open(r) => {
                             let owned = request_of(ex, r);
@@ -829,6 +877,60 @@ fn run_run(s: &Setup, batches: &[Vec<RReq>]) -> Ran {
                             ))
                         }
                     }
+                };
+                async move {
+                    match rq.beh {
+                        b if b.awaited(latency) => call.await,
+                        Beh::GiveUp(ms) => {
+                            match tokio::time::timeout(std::time::Duration::from_millis(ms), call).await {
+                                Ok(r) => Resp::Early(Box::new(r)),
+                                Err(_) => Resp::NotAwaited,
+                            }
+                        }
+                        _ => {
+                            // raw request straight onto the exchange's channel; nobody listens
+                            drop(call);
+                            let time = client.time_request();
+                            let request = match &rq.kind {
+                                RKind::Open(r) => {
+                                    let (tx, rx) = oneshot::channel();
+                                    drop(rx);
+                                    MockExchangeRequest::open_order(time, tx, request_of(ex, r))
+                                }
+                                RKind::Snapshot => {
+                                    let (tx, rx) = oneshot::channel();
+                                    drop(rx);
+                                    MockExchangeRequest::fetch_account_snapshot(time, tx)
+                                }
+                                RKind::Balances => {
+                                    let (tx, rx) = oneshot::channel();
+                                    drop(rx);
+                                    MockExchangeRequest::fetch_balances(time, tx)
+                                }
+                                RKind::Orders => {
+                                    let (tx, rx) = oneshot::channel();
+                                    drop(rx);
+                                    MockExchangeRequest::fetch_orders_open(time, tx)
+                                }
+                                RKind::Trades(since) => {
+                                    let (tx, rx) = oneshot::channel();
+                                    drop(rx);
+                                    MockExchangeRequest::fetch_trades(time, tx, time_of(*since))
+                                }
+                                RKind::Cancel => {
+                                    let (tx, rx) = oneshot::channel();
+                                    drop(rx);
+                                    MockExchangeRequest::cancel_order(
+                                        time,
+                                        tx,
+                                        OrderEvent { key: key_of(ex, 0, 0, 0), state: RequestCancel { id: None } },
+                                    )
+                                }
+                            };
+                            let _ = client.request_tx.send(request);
+                            Resp::NotAwaited
+                        }
+                    }
                 }
             });
             let resps: Vec<Resp> = futures::future::join_all(futs).await;
@@ -840,6 +942,7 @@ fn run_run(s: &Setup, batches: &[Vec<RReq>]) -> Ran {
             let mut ok = true;
             let mut events = vec![];
             while let Some(Some(ev)) = stream.next().now_or_never() {
+                nontrivial = true;
                 if ev.exchange != ex {
                     ok = false;
                 }
@@ -862,7 +965,20 @@ fn run_run(s: &Setup, batches: &[Vec<RReq>]) -> Ran {
             }
             let mut resp_terms = vec![];
             for (rq, resp) in batch.iter().zip(resps.iter()) {
+                match rq.beh {
+                    Beh::Await => {}
+                    Beh::Drop => tags.push("run:beh:drop".into()),
+                    Beh::GiveUp(_) => tags.push("run:beh:giveup".into()),
+                }
+                if !rq.beh.awaited(latency) && matches!(rq.kind, RKind::Open(_)) {
+                    tags.push("run:open_not_awaited".into());
+                }
+                let (early, resp) = match resp {
+                    Resp::Early(inner) => (true, inner.as_ref()),
+                    other => (false, other),
+                };
                 let term = match resp {
+                    Resp::NotAwaited | Resp::Early(_) => pair("None", "POffline"),
                     Resp::Open(o) => {
                         if o.key.exchange != ex {
                             ok = false;
@@ -908,6 +1024,8 @@ fn run_run(s: &Setup, batches: &[Vec<RReq>]) -> Ran {
                         pair("None", "POffline")
                     }
                 };
+                // a call that came back before the client gave up: only "exchange gone" is expected
+                let term = if early && term.ends_with("POffline)") { pair("None", "POffline") } else { term };
                 resp_terms.push(term);
             }
             // follow-up queries at the time of the batch's last request
@@ -1469,7 +1587,13 @@ fn gen_run_case_once(r: &mut Rng, max_reqs: u64, adversarial: bool) -> (Setup, V
             if matches!(kind, RKind::Open(_)) {
                 seen_times.push(now);
             }
-            batch.push(RReq { t: now, kind });
+            let beh = match r.below(8) {
+                0 => Beh::Drop,
+                1 if s.latency > 0 => Beh::GiveUp(r.below(s.latency)),
+                1 => Beh::Drop,
+                _ => Beh::Await,
+            };
+            batch.push(RReq { t: now, kind, beh });
         }
         left -= size;
         batches.push(batch);
